@@ -14,6 +14,7 @@ def default_body(prog):
     return c[0]
 
 
+@common.part
 def defaults(chk, prop):
     prog = chk.prog
     body = default_body(prog)
@@ -48,6 +49,7 @@ def defaults(chk, prop):
     return o
 
 
+@common.part
 def which_scenario(chk, prop):
     """default classifier: Serial <=> "serial" in scenario + rule + feature tags"""
     prog = chk.prog
@@ -123,6 +125,7 @@ def which_scenario(chk, prop):
                                             arg_order=('feature', 'rule', 'scenario'), closure_self=True, to_bool=to_bool, confirm=confirm, invoke=invoke)
 
 
+@common.part
 def setters(chk, prop, which=('max_concurrent_scenarios', 'retries', 'retry_after', 'fail_fast')):
     """The builder's option setters store exactly what they are given (`None` included) and touch nothing else:
     each setter body on a runner with arbitrary current settings and an arbitrary argument."""
@@ -163,7 +166,8 @@ def setters(chk, prop, which=('max_concurrent_scenarios', 'retries', 'retry_afte
                 fd = M.discr(ex_, f)
                 wd, wv = (arg_d, arg_v) if n == name else (d, v)
                 claims.append(fd == wd)
-                claims.append(z3.Implies(wd == bv(1), ex_.materialize(ex_.field_of(f, 1, 0, tys[n]), tys[n]) == wv))
+                if ex_.check(fd == bv(1)):
+                    claims.append(z3.Implies(wd == bv(1), ex_.materialize(ex_.field_of(f, 1, 0, tys[n]), tys[n]) == wv))
             ff = ex_.materialize(ex_.field_of(res, None, BF.index('fail_fast'), 'bool'), 'bool')
             claims.append(ff == (z3.BoolVal(True) if name == 'fail_fast' else cur_ff))
             o.queries += 1
@@ -207,5 +211,51 @@ def confirm_setter(chk, o, prop, name):
             o.verdict = 'inconclusive'
             o.detail += ' | not reproduced natively (the real builder keeps the last value set)'
         return
-    o.verdict = 'inconclusive'
-    o.detail += ' | no native replay for this setter'
+    one = ['feature', '| Feature: f', '|   Scenario: s0', '|     Given x0']
+    tagged = ['feature', '| Feature: f', '|   @retry', '|   Scenario: s0', '|     Given x0']
+
+    def attempts(lines):
+        res, out = replay.run_script('\n'.join(['mode runner', 'hooks none'] + lines) + '\n', path, timeout=60)
+        chk.replays += 1
+        ts = [int(x) for x in re.findall(r'LOG EV \S*scenario\[s0\]:started \S+ t=(\d+)', out)]
+        fs = [int(x) for x in re.findall(r'LOG EV \S*scenario\[s0\]:finished \S+ t=(\d+)', out)]
+        started = re.findall(r'LOG EV \S*scenario\[(s\d)\]:started', out)
+        return res, ts, fs, started
+    devs = []
+    if name == 'retries':
+        # (script lines, attempts of the always failing s0 the documentation promises)
+        cases = [(['builder max_concurrent=1 retries=2'] + one + ['step x0 always_fail'], 3),
+                 (['builder max_concurrent=1 retries=2', 'builder retries=1'] + one + ['step x0 always_fail'], 2),
+                 # an explicit budget of ZERO is a budget: a bare @retry tag takes its count from it (no count anywhere => 1)
+                 (['builder max_concurrent=1 retries=0'] + tagged + ['step x0 always_fail'], 1),
+                 (['builder max_concurrent=1'] + tagged + ['step x0 always_fail'], 2)]
+        for lines, want in cases:
+            res, ts, fs, started = attempts(lines)
+            if res is not None and len(ts) != want:
+                devs.append('%s: the always failing scenario was attempted %d time(s), the settings say %d' % (' then '.join(l for l in lines if l.startswith('builder')), len(ts), want))
+                break
+    elif name == 'retry_after':
+        cases = [(['builder max_concurrent=1 retries=1 retry_after_ms=300'] + one + ['step x0 always_fail'], 'ge'),
+                 (['builder max_concurrent=1 retries=1 retry_after_ms=300', 'builder retry_after_ms=1'] + one + ['step x0 always_fail'], 'lt')]
+        for lines, how in cases:
+            res, ts, fs, started = attempts(lines)
+            if res is not None and len(ts) >= 2 and fs:
+                gap = ts[1] - fs[0]
+                if (how == 'ge' and gap < 290) or (how == 'lt' and gap > 200):
+                    devs.append('%s: the retry started %d ms after the failed attempt' % (' then '.join(l for l in lines if l.startswith('builder')), gap))
+                    break
+    elif name == 'fail_fast':
+        res, ts, fs, started = attempts(['builder max_concurrent=1 fail_fast=1'] + feat3 + ['step x0 always_fail'])
+        if res is not None and started != ['s0']:
+            devs.append('builder fail_fast: after the final failure of s0 the run started %s' % started)
+    else:
+        o.verdict = 'inconclusive'
+        o.detail += ' | no native replay for this setter'
+        return
+    if devs:
+        chk.replay_files.append(path)
+        o.replay = path
+        o.detail += ' | reproduced natively through the real builder and runner: %s' % devs[0]
+    else:
+        o.verdict = 'inconclusive'
+        o.detail += ' | not reproduced natively (the real builder and runner follow the settings in every case tried)'
